@@ -40,6 +40,22 @@ PathMatch(live, N, chunk, prev, occ, indel) ==
                 \cup (IF del[1] THEN {RemAt0(chunk, occ)} ELSE {}),
       visited |-> subsV + insV + del[2]]
 
+\* the public result of path_matching, in the order the code produces it: substitutions by nucleotide, then insertions by
+\* nucleotide, then the deletion; each entry <<kind, position, nucleotide, repaired string>>
+PathMatchRecords(live, N, chunk, prev, occ, indel) ==
+  LET L == LiveAt(live, N, prev)
+      pv == Row(N, prev)
+      orig == chunk[occ + 1]
+      rest1 == SubSeq(chunk, occ + 2, Len(chunk))
+      rest0 == SubSeq(chunk, occ + 1, Len(chunk))
+      order == SetToSortSeq(L, <)
+      subs == SelectSeq(order, LAMBDA r : r # orig /\ WalkFrom(live, N, Succ(N, pv, r), rest1, 0)[1])
+      ins == IF indel THEN SelectSeq(order, LAMBDA a : WalkFrom(live, N, Succ(N, pv, a), rest0, 0)[1]) ELSE <<>>
+      del == indel /\ WalkFrom(live, N, prev, rest1, 0)[1]
+  IN [i \in 1..Len(subs) |-> <<"S", occ, subs[i], ReplaceAt0(chunk, occ, subs[i])>>]
+     \o [i \in 1..Len(ins) |-> <<"I", occ, ins[i], InsAt0(chunk, occ, ins[i])>>]
+     \o (IF del THEN << <<"D", occ, orig, RemAt0(chunk, occ)>> >> ELSE <<>>)
+
 \* ---- the scan loop: st = [loc, v, iq, segs, chunks, markers, det, visited, ticks]
 ScanInit(start, n) == [loc |-> 0, v |-> start, iq |-> [i \in 1..n |-> -1], segs |-> << <<>> >>, chunks |-> <<>>,
                        markers |-> <<>>, det |-> 0, visited |-> 0, ticks |-> 0]
